@@ -201,7 +201,7 @@ def gen_readonly_programs(tier: str, rnd: random.Random) -> list[dict]:
     """C18: the monitoring API on every family, and setters with arguments around their valid intervals."""
     quick = tier == "quick"
     progs = []
-    ints = sorted(set(list(range(-300, 301, 7 if quick else 1)) + [-32769, -32768, -65536, -2 ** 31, 32768, 65535, 65536, 2 ** 31,
+    ints = sorted(set(list(range(-300, 301, 3 if quick else 1)) + [-32769, -32768, -65536, -2 ** 31, 32768, 65535, 65536, 2 ** 31,
                                                                     -1, 0, 1, 99, 100, 101, 89, 90]))
     fams = [("ET", "ETU", 10000, 8899), ("ET", "ETT", 10000, 502), ("DT", "DTU", 0, 8899), ("ES", "ESU", 0, 8899)]
     for fam, tag, rated, port in fams:
